@@ -92,19 +92,21 @@ def corpus17():
                  "body": [("assign", "f", ("choice", [(c(F(1, 2)), c(0)), (c(F(1, 2)), c(1))])),
                           ("if", [(("atom", v("f"), "==", c(1)), [("simult", [("x", P.det(("add", v("x"), v("y")))), ("y", P.det(v("x")))])])], None)]},
                 [{"x": 1}], "irrational-roots+if"))
-    # conditioned draw (ConditionsToArithm crashes here: known) and a guard
-    out.append(({"types": [], "init": [("assign", "f", P.det(c(0))), ("assign", "b", P.det(c(0))), ("assign", "a", P.det(c(0)))],
+    # conditioned draw (ConditionsToArithm crashes here: known).  NOTE: no variable of this corpus is spelled like a
+    # tag of get_unique_var (t, c, r, u, a, k, s, b, old, prob): such names can collide with generated names
+    # depending on the counter of the worker process (C20 finding), which would make this check history dependent
+    out.append(({"types": [], "init": [("assign", "f", P.det(c(0))), ("assign", "d", P.det(c(0))), ("assign", "z", P.det(c(0)))],
                  "guard": ("true",),
                  "body": [("assign", "f", ("choice", [(c(F(1, 3)), c(0)), (c(F(1, 3)), c(1)), (c(F(1, 3)), c(2))])),
-                          ("if", [(("atom", v("f"), ">=", c(1)), [("assign", "b", ("draw", ("bern", c(F(1, 4)))))])], None),
-                          ("assign", "a", P.det(("add", v("a"), v("b"))))]},
-                [{"a": 1}, {"a": 1, "b": 1}], "conditioned-draw"))
+                          ("if", [(("atom", v("f"), ">=", c(1)), [("assign", "d", ("draw", ("bern", c(F(1, 4)))))])], None),
+                          ("assign", "z", P.det(("add", v("z"), v("d"))))]},
+                [{"z": 1}, {"z": 1, "d": 1}], "conditioned-draw"))
     # loop guard
-    out.append(({"types": [], "init": [("assign", "c", P.det(c(0))), ("assign", "k", P.det(c(0)))],
-                 "guard": ("atom", v("c"), "==", c(0)),
-                 "body": [("assign", "c", ("choice", [(c(F(1, 3)), c(1)), (c(F(2, 3)), c(0))])),
-                          ("assign", "k", P.det(("add", v("k"), c(1))))]},
-                [{"k": 1}, {"k": 2}], "guard"))
+    out.append(({"types": [], "init": [("assign", "g", P.det(c(0))), ("assign", "m", P.det(c(0)))],
+                 "guard": ("atom", v("g"), "==", c(0)),
+                 "body": [("assign", "g", ("choice", [(c(F(1, 3)), c(1)), (c(F(2, 3)), c(0))])),
+                          ("assign", "m", P.det(("add", v("m"), c(1))))]},
+                [{"m": 1}, {"m": 2}], "guard"))
     return out
 
 
@@ -824,6 +826,9 @@ def run(ctx):
     ctx.coverage["pipeline_cases_distinct"] = len(files)
     process_validation(ctx, progs, by_prog, [r for r in vrecs if r["label"].get("part") == "programs"], named, outs, tinfo, outs)
     process_numeric_validation(ctx, [r for r in vrecs if r["label"].get("part") == "numeric"])
+    import os
+    tms = os.times()
+    ctx.coverage["cpu_seconds_children"] = round(tms.children_user + tms.children_system, 1)
     ctx.coverage["rule"] = ("source programs from harness/gen.py (finite variables, accumulators, guards, nested if/elif/else, 2-4 way choices, draws) "
                             "plus a corpus (three-way choices, self-referencing alternatives, complex / irrational eigenvalues, conditioned draw, guard), "
                             "kept when Polar's default settings accept them; each analysed under "
